@@ -283,6 +283,14 @@ def run_case(desc):
         except BaseException as e:
             excA = e
         msA, stA = multiset(S), contents(S)
+        orderA = None
+        if excA is None and not flaky_mt and "transform_physical" not in rkw:
+            # the plan executed alone honours the same orderings as a real run (write, read back, then consumers; dependent sources after what
+            # they depend on): the C09 ordering checker on THIS execution's history
+            try:
+                orderA = history.c09_check(S, exp, out_ids, rA[0] if out_ids is not None else None)[0]
+            except Exception as e:  # the checker presumes a complete run of the expected operations
+                orderA = None
         # (2b) the real run from the same state
         S.restore(snap)
         rB, excB = S.run(out_ids, W=rng.choice([1, 2, 8]), sched=rng.choice(["default", "random"]), fresh_tick=fresh,
@@ -297,6 +305,8 @@ def run_case(desc):
                        "writes": dict(collections.Counter(S.store_name[i] for i in exp.writes)), "side": dict(collections.Counter(S.store_name[i] for i in exp.side))}
             if msA != want_ms and not flaky_mt:
                 bad = f"executing the dry run's physical plan performed {msA}, but the store state (out-of-date oracle) requires {want_ms}"
+            elif orderA and msA == want_ms:
+                bad = f"executing the dry run's physical plan alone: {orderA}"
             elif msA != msB:
                 bad = f"event multisets differ: physical plan alone {msA} vs real run {msB}"
             else:
